@@ -201,7 +201,12 @@ class Ctx:
                 raise Machinery("trace validation (shard %d, %d events) did not complete:\n%s" % (s, n, out[i:i + 2500] if i >= 0 else out[-3000:]))
             st = {"distinct": n + 1}
             self.p3_states += st["distinct"]
-            for v in tlc.print_lines(out):
+            parsed = tlc.print_lines(out)
+            import re as _re2
+            raw = len(_re2.findall(r'<<\s*"(?:REJECT|KNOWN|INFO)"', out))
+            if raw != sum(1 for v in parsed if v[0] in ("REJECT", "KNOWN", "INFO")):
+                raise Machinery("trace validation (shard %d): %d verdict lines printed by TLC, %d parsed" % (s, raw, len(parsed)))
+            for v in parsed:
                 if v[0] == "REJECT":
                     self.rejects[v[1]] = sorted(v[2]["$set"])
                 elif v[0] == "KNOWN":
